@@ -12,6 +12,7 @@ import (
 	"runtime/pprof"
 	"sort"
 	"strings"
+	"sync/atomic"
 	"time"
 
 	"github.com/cloudwego/eino/vsched"
@@ -73,6 +74,9 @@ type Ctx struct {
 	Only     string
 	scens    []Scenario
 	sigCount map[string]int
+	progress int64
+	current  string
+	watching bool
 }
 
 // Init parses the common flags.
@@ -317,6 +321,7 @@ func (c *Ctx) ExploreAll() {
 	if c.Replay != "" {
 		return
 	}
+	c.startWatchdog()
 	maxLevels := 0
 	for _, sc := range c.scens {
 		if len(sc.Bounds) > maxLevels {
@@ -350,11 +355,40 @@ func (c *Ctx) ExploreAll() {
 	}
 }
 
+// startWatchdog reports an execution that never finishes: under the cooperative scheduler that can only be a
+// thread spinning without ever reaching a scheduling point (an infinite loop in the code under test or in the
+// harness). The worker cannot recover from it; it records the scenario as a violation and exits.
+func (c *Ctx) startWatchdog() {
+	if c.watching {
+		return
+	}
+	c.watching = true
+	go func() {
+		last, stalled := int64(-1), 0
+		for {
+			time.Sleep(5 * time.Second)
+			cur := atomic.LoadInt64(&c.progress)
+			if cur != last || c.current == "" {
+				last, stalled = cur, 0
+				continue
+			}
+			stalled++
+			if stalled >= 6 {
+				c.Violate(Violation{Scenario: c.current, Signature: "no-progress", MapDesc: vsched.MapOrderDesc,
+					Msg: "an execution did not finish within 30 s: a thread spins without reaching a scheduling point (infinite loop)"})
+				c.Res.Capped, c.Res.CapReason = true, "worker stopped: an execution never finished"
+				c.Finish()
+			}
+		}
+	}()
+}
+
 // Explore runs one scenario under all of its bounds immediately.
 func (c *Ctx) Explore(sc Scenario) {
 	if c.Replay != "" {
 		return
 	}
+	c.startWatchdog()
 	for _, b := range sc.Bounds {
 		if c.TimeUp() || c.TooManyViolations() {
 			return
@@ -379,7 +413,9 @@ func (c *Ctx) exploreBound(sc Scenario, b int) (ok bool, done bool) {
 		vsched.MapOrderDesc = desc
 		outcomes := map[string]struct{}{}
 		ex := &vsched.Explorer{Bound: b, MaxExecs: sc.MaxExecs, Deadline: c.Deadline, States: c.states, HBCache: sc.HBCache}
+		c.current = sc.Name
 		ex.New = func() (func(), func(x *vsched.Exec) error) {
+			atomic.AddInt64(&c.progress, 1)
 			m, chk := sc.New()
 			return m, func(x *vsched.Exec) error {
 				o, err := chk(x)
@@ -390,6 +426,7 @@ func (c *Ctx) exploreBound(sc Scenario, b int) (ok bool, done bool) {
 			}
 		}
 		err := ex.Run()
+		c.current = ""
 		c.Res.Evaluations += ex.Execs
 		c.Res.Validated += ex.Execs
 		c.Res.Transitions += ex.Transitions
